@@ -97,7 +97,7 @@ theorem finishDir_once (m : M Prim) (hall : m.AllP (SoleOnce dir cmd tmpl)) (g :
 /-- **A whole starting point** for `-exec CMD ARGS ;` -/
 theorem whole_walk_once (c : Config) (m : M Prim) (root : Node Attr) (g : GS)
     (hall : m.AllP (SoleOnce dir cmd tmpl)) (hone : m.weight wT ≤ 1)
-    (hwalk : ((refCfg c).depthFirst = false ∧ PruneOk (refCfg c) (evalEntry m start)) ∨
+    (hwalk : ((refCfg c).depthFirst = false ∧ PruneOkN (refCfg c) (evalEntry m start) [] 0 (if c.sorted then sortNode root else root)) ∨
              ((refCfg c).depthFirst = true ∧ ¬ HRootLink (refCfg c) (if c.sorted then sortNode root else root))) :
     let n := if c.sorted then sortNode root else root
     ∃ L, (processDir c m start (some root) g).gs.execs = g.execs ++ L ∧
@@ -106,7 +106,7 @@ theorem whole_walk_once (c : Config) (m : M Prim) (root : Node Attr) (g : GS)
   have hroot : processRoot (refCfg c) (evalEntry m start) n { g with curDir := none } =
       (let q := refRoot (refCfg c) (evalEntry m start) n ⟨{ g with curDir := none }, 0, 0⟩; resOf q.1 q.2) := by
     rcases hwalk with ⟨h1, h2⟩ | ⟨h1, h2⟩
-    · exact processRoot_pre (refCfg c) (evalEntry m start) h1 h2 n _
+    · exact processRoot_preN (refCfg c) (evalEntry m start) h1 n h2 _
     · exact processRoot_post (refCfg c) (evalEntry m start) h1 n h2 _
   have hsub := refNode_sub (refCfg c) (evalEntry m start) (TWO dir cmd tmpl start)
     (fun s => ⟨[], by simp, by simp⟩)
